@@ -7,7 +7,7 @@ import time
 import z3
 
 from .execute import Interp
-from .interp import Infeasible, OutsideSubset, Path, PyRaise, World, MAX_PATHS
+from .interp import Infeasible, OutsideSubset, Path, PathEnd, PyRaise, World, MAX_PATHS
 
 
 class PathResult:
@@ -40,6 +40,8 @@ def explore(world: World, run, assumptions=(), ext=None, loop_specs=None, max_pa
             outcome = "return"
         except PyRaise as e:
             value, state, outcome = e, getattr(e, "state", None), f"raise:{e.etype}"
+        except PathEnd:
+            value, state, outcome = None, None, "cut"
         except Infeasible:
             continue
         todo.extend(p.alternatives)
@@ -60,6 +62,24 @@ def check_valid(world, hyps, goal, timeout_ms=10000):
     if r == z3.sat:
         return "refuted", s.model()
     return "unknown", s.reason_unknown()
+
+
+def discharge_obligations(world, results, extra_hyps=(), timeout_ms=20000):
+    """Prove every obligation recorded along the explored paths. Returns (ok, failures[(label, verdict, model)])."""
+    fails = []
+    n = 0
+    for r in results:
+        for ob in r.interp.obligations:
+            if len(ob) == 2:
+                label, formula = ob
+                pc = r.path.pc
+            else:
+                label, pc, formula = ob
+            n += 1
+            v, m = check_valid(world, list(pc) + list(extra_hyps), formula, timeout_ms)
+            if v != "proved":
+                fails.append((label, v, m))
+    return n, fails
 
 
 def named(world, name, kind="val", **meta):
